@@ -17,6 +17,7 @@ pub mod prog;
 
 pub mod c04;
 pub mod c05;
+pub mod c09;
 pub mod c10;
 pub mod c11;
 pub mod c13;
